@@ -6,6 +6,7 @@ import (
 	"go/types"
 	"math/big"
 	"sort"
+	"strconv"
 
 	"golang.org/x/tools/go/ssa"
 
@@ -89,10 +90,13 @@ func (e *CEnv) eval(x Expr) Val {
 		b, _ := new(big.Int).SetString(n.V, 10)
 		return Val{T: untypedInt, Tm: c.BigLit(b)}
 	case *EReal:
-		r, ok := new(big.Rat).SetString(n.V)
-		if !ok {
+		// a decimal literal denotes the float64 nearest to it, exactly as a typed Go constant does
+		f, err := strconv.ParseFloat(n.V, 64)
+		if err != nil {
 			e.fail("bad decimal literal %s", n.V)
 		}
+		r := new(big.Rat)
+		r.SetFloat64(f)
 		return Val{T: types.Typ[types.Float64], Tm: c.RealLit(r)}
 	case *EBool:
 		return Val{T: tBool, Tm: c.BoolLit(n.V)}
@@ -421,7 +425,7 @@ func (e *CEnv) lookupLocal(name string) (Val, bool) {
 				continue
 			}
 			if obj := dr.Object(); obj != nil && obj.Name() == name {
-				if _, isVar := obj.(*types.Var); isVar {
+				if vv, isVar := obj.(*types.Var); isVar && !vv.IsField() {
 					found, isAddr = dr.X, dr.IsAddr
 					return true
 				}
@@ -443,6 +447,9 @@ func (e *CEnv) lookupLocal(name string) (Val, bool) {
 			for _, in := range b.Instrs {
 				if dr, isDR := in.(*ssa.DebugRef); isDR {
 					if obj := dr.Object(); obj != nil && obj.Name() == name {
+						if vv, isVar := obj.(*types.Var); !isVar || vv.IsField() {
+							continue
+						}
 						if only != dr.X {
 							only = dr.X
 							isAddr = dr.IsAddr
@@ -875,6 +882,24 @@ func (e *CEnv) applyPred(pd *PredDecl, args []Expr) Val {
 	}
 	if pd.Kind == "rec" {
 		return e.applyRec(pd, args)
+	}
+	if pd.Kind == "ufun" {
+		s := e.sub()
+		e.enterPredPkg(s, pd)
+		resT := s.specType(pd.ResType)
+		var ts []*smt.Term
+		var sorts []smt.Sort
+		for _, a := range args {
+			v := e.eval(a)
+			if v.Tm == nil {
+				v.Tm = e.ex.ptrTerm(v)
+			}
+			ts = append(ts, v.Tm)
+			sorts = append(sorts, v.Tm.Sort)
+		}
+		name := "uf_" + pd.Name
+		e.ex.W.C.DeclareFun(name, sorts, e.ex.W.SortOf(resT))
+		return Val{T: resT, Tm: e.ex.W.C.App(name, e.ex.W.SortOf(resT), ts...)}
 	}
 	s := e.sub()
 	s.depth = e.depth + 1
